@@ -22,6 +22,7 @@ import (
 	"net"
 	"os"
 	"runtime"
+	"slices"
 	"sort"
 	"strconv"
 	"strings"
@@ -254,10 +255,22 @@ func (v *vsConn) Write(ctx context.Context, msg jsonrpc.Message) error {
 	s.writersBlocked--
 	s.tap = append(s.tap, vsWire{seq: s.c.evLocked(), dir: 'w', kind: kind, id: id, method: method, ok: err == nil})
 	s.c.trLocked("%s WRITE %c id=%s %s => %v", vsSideName[s.who], kind, id, method, err)
+	selfInflicted := ""
 	if err != nil && ctx.Err() == nil {
+		c := s.c
+		// The inner transport is the SDK's own (in-memory pipe / io pipe): nothing but an armed fault, a Close
+		// or the peer's end going away makes its Write fail. A failure without any of these is the SDK
+		// breaking its own transport (e.g. a stale write deadline) — it must not excuse what follows.
+		if !c.faultEver && !c.side[0].closeBegun && !c.side[1].closeBegun && !c.side[0].failed && !c.side[1].failed && !c.stopped {
+			selfInflicted = fmt.Sprintf("C04+C05: the %s's transport Write of %s failed with %q although no fault was injected, nobody closed the session and the peer is alive: the session is no longer usable",
+				vsSideName[s.who], method, err.Error())
+		}
 		s.failed = true
 	}
 	s.c.mu.Unlock()
+	if selfInflicted != "" {
+		s.c.viol("%s", selfInflicted)
+	}
 	return err
 }
 
@@ -2281,7 +2294,9 @@ func (c *vsCase) obs() string {
 	pid := os.Getenv("VERIF_PROPERTY")
 	var vs []string
 	for _, v := range c.viols {
-		if pid == "" || strings.HasPrefix(v, pid+":") {
+		// a clause may name several properties: "C04+C05: …"
+		head, _, _ := strings.Cut(v, ":")
+		if pid == "" || slices.Contains(strings.Split(head, "+"), pid) {
 			vs = append(vs, v)
 		}
 	}
